@@ -72,6 +72,7 @@ class Conn:
         self.told = {'server': False, 'client': False}
         self.severed = False
         self.last = {'c2s': 0.0, 's2c': 0.0}
+        self.fifo = {'c2s': [], 's2c': []}
         self.nframes = {'c2s': 0, 's2c': 0}
         self.server_task = None
         self.drop_hook = None   # callable(direction, index, data)->bool: sever
@@ -86,7 +87,8 @@ class Conn:
             lat = self.net.latency()
         at = max(self.last[d], self.loop.time() + lat)
         self.last[d] = at
-        self.loop.call_at(at, self._deliver, d, data)
+        self.fifo[d].append(data)
+        self.loop.call_at(at, self._deliver, d)
         return True
 
     async def send(self, d, data):
@@ -110,8 +112,15 @@ class Conn:
             raise OSError('connection closed')
         self.post(d, data)
 
-    def _deliver(self, d, data):
+    def _deliver(self, d):
+        # one timer per frame, but the frame delivered is always the oldest
+        # undelivered one of this direction: order never depends on how the
+        # scheduler breaks ties between timers due at the same instant
+        data = self.fifo[d].pop(0)
         if self.severed:
+            return
+        if data is CLOSED:
+            self._tell('server' if d == 'c2s' else 'client')
             return
         i = self.nframes[d]
         self.nframes[d] = i + 1
@@ -145,10 +154,8 @@ class Conn:
             lat = self.net.latency()
         at = max(self.last[d], self.loop.time() + lat)
         self.last[d] = at
-        self.loop.call_at(at, self._tell, other)
-        if by == 'server':
-            # wake the server's own reader if it still waits
-            pass
+        self.fifo[d].append(CLOSED)
+        self.loop.call_at(at, self._deliver, d)
 
     def _tell(self, side):
         if self.told[side]:
